@@ -1,6 +1,7 @@
 package main
 
 import (
+	"encoding/hex"
 	"encoding/json"
 	"fmt"
 	"math"
@@ -8,6 +9,7 @@ import (
 	"reflect"
 	"strconv"
 	"strings"
+	"unicode/utf8"
 )
 
 // TV is a typed Go value in transit: the harness rebuilds the exact Go type from it and prints
@@ -18,9 +20,40 @@ type TV struct {
 	U   *uint64 `json:"u,omitempty"`   // unsigned integers
 	F   string  `json:"f,omitempty"`   // floats, strconv 'g' -1 text ("NaN", "+Inf", "-Inf" allowed)
 	S   *string `json:"s,omitempty"`   // string / json.Number
+	X   string  `json:"x,omitempty"`   // in transit only: hex of S when S is not valid UTF-8 (JSON cannot carry it)
 	B   *bool   `json:"b,omitempty"`   // bool
 	L   []TV    `json:"l,omitempty"`   // slice / array / list elements
 	Nil bool    `json:"nil,omitempty"` // typed nil (slices, maps, pointers ...)
+}
+
+type tvPlain TV
+
+// MarshalJSON / UnmarshalJSON: a Go string that is not valid UTF-8 travels as hex (encoding/json would
+// silently replace the offending bytes by U+FFFD).
+func (tv TV) MarshalJSON() ([]byte, error) {
+	a := tvPlain(tv)
+	if tv.S != nil && !utf8.ValidString(*tv.S) {
+		a.X = hex.EncodeToString([]byte(*tv.S))
+		a.S = nil
+	}
+	return json.Marshal(a)
+}
+
+func (tv *TV) UnmarshalJSON(b []byte) error {
+	var a tvPlain
+	if err := json.Unmarshal(b, &a); err != nil {
+		return err
+	}
+	if a.X != "" {
+		raw, err := hex.DecodeString(a.X)
+		if err != nil {
+			return err
+		}
+		s := string(raw)
+		a.S, a.X = &s, ""
+	}
+	*tv = TV(a)
+	return nil
 }
 
 func tvInt(t string, v int64) TV     { return TV{T: t, I: &v} }
@@ -155,14 +188,21 @@ func (tv TV) Value() interface{} {
 	}
 }
 
+// textLit: the code points of s; a byte that is not part of valid UTF-8 is the item 1114112 + byte
+// (Model/GoVal.v: text, valid_text).
 func textLit(s string) string {
-	rs := []rune(s)
-	if len(rs) == 0 {
+	if len(s) == 0 {
 		return "[]"
 	}
-	parts := make([]string, len(rs))
-	for i, r := range rs {
-		parts[i] = strconv.Itoa(int(r))
+	var parts []string
+	for i := 0; i < len(s); {
+		r, w := utf8.DecodeRuneInString(s[i:])
+		if r == utf8.RuneError && w == 1 {
+			parts = append(parts, strconv.Itoa(1114112+int(s[i])))
+		} else {
+			parts = append(parts, strconv.Itoa(int(r)))
+		}
+		i += w
 	}
 	return "[" + strings.Join(parts, ";") + "]%N"
 }
